@@ -34,9 +34,9 @@ def install(E):
             if len(live) > 1: record(e, 'sched', t['id'])
             if last is not None and not last['done'] and t is not last: preempt += 1
             e.P.trace.append('T%d:%s' % (t['id'], t['at'] or 'start'))
-            t['resumed'] = True
+            t['resumed'] = t['at'] is not None     # the first step runs up to (not through) the first scheduling point
             r = e.run_frames(t['stack'], thread=t)
-            if r != 'yield': t['done'] = True
+            if r != 'yield': t['done'] = True      # finished, or blocked for good (a select nothing will ever wake)
             last = t
         e.P.g['threads'] = []
         return None
@@ -68,6 +68,89 @@ def install(E):
     I[RT + 'FaultRun'] = lambda e, a: crash_or_fault_run(e, a, 'fault')
     # name of the call before which the last CrashRun / FaultRun struck ("" if it did not)
     I[RT + 'HitAt'] = lambda e, a: StrV(c=(e.P.g.get('crash_at_name') or ''))
+
+    # ---- minimal goroutines / channels (enough for mint/invoicesub.go): a `go` statement inside a harness thread starts
+    # a coroutine that runs eagerly until it finishes or blocks sending on an unbuffered channel; a receive or select
+    # takes the value of a parked sender and resumes it; a select with no ready case blocks the thread for good
+    # (timers never fire: stated).
+    def run_coroutine(e, co):
+        r = e.run_frames(co['stack'], thread=co)
+        if r == 'yield': raise Unsupported('scheduling point inside an inner goroutine')
+        if r == 'blocked': return
+        co['done'] = True
+    def do_go(fr, i):
+        if E.go_mode == 'ignore' and E.P.g.get('cur_thread') is None: return None
+        c = i['call']; args = [E.val(fr, a) for a in c['args']]
+        if 'invoke' in c:
+            recv = E.val(fr, c['recv']); tgt = E.invoke_target(recv, c['invoke'], c['iface'])
+            fv = FuncV(tgt); args = [recv.v] + args
+        else: fv = E.val(fr, c['fn'])
+        r = E.call_fn(fv, args)
+        if r[0] != 'push': return None
+        co = dict(stack=[r[1]], done=False, resumed=True, at=None, id=-1, fault=False, co=True)
+        run_coroutine(E, co)
+        return None
+    E.do_go = do_go
+    def chan_send(fr, i, ch, val):
+        th = E.P.g.get('cur_thread')
+        if ch is None: return ('block', None)
+        if th is not None and th.get('sent_ok') is ch:
+            th['sent_ok'] = None; return None          # resumed after the value was taken
+        if not hasattr(ch, 'senders'): ch.senders = []
+        if ch.cap > len(ch.buf):
+            ch.buf.append(val); return None
+        ch.senders.append((val, th))
+        return ('block', ch)
+    E.chan_send = chan_send
+    def take(e, ch):
+        """value of a parked sender / buffered element, or None"""
+        if ch is None: return None
+        if ch.buf: return (ch.buf.pop(0),)
+        snd = getattr(ch, 'senders', [])
+        if snd:
+            val, co = snd.pop(0)
+            if co is not None and co.get('co'):
+                co['sent_ok'] = ch; co['resumed'] = True
+                run_coroutine(e, co)
+            return (val,)
+        return None
+    def chan_recv(fr, i, ch):
+        got = take(E, ch)
+        if got is None:
+            if ch is not None and ch.closed:
+                z = E.zero(E.types[i['xt']]['elem'])
+                fr.regs[i['name']] = (z, False) if i.get('commaok') else z
+                return None
+            return ('block', ch)
+        fr.regs[i['name']] = (got[0], True) if i.get('commaok') else got[0]
+        return None
+    E.chan_recv = chan_recv
+    def do_select(fr, i):
+        states = i['states']
+        ready = []
+        for k, st in enumerate(states):
+            ch = E.val(fr, st['chan'])
+            if st['dir'] == 2:      # recv
+                if ch is not None and (ch.buf or getattr(ch, 'senders', []) or ch.closed): ready.append(k)
+            else:
+                raise Unsupported('select with a send case')
+        if not ready:
+            if not i['blocking']:
+                fr.regs[i['name']] = tuple([(1 << 64) - 1, False] + [None for st in states if st['dir'] == 2])
+                return None
+            return ('block', None)
+        k = ready[E.choose(len(ready))] if len(ready) > 1 else ready[0]
+        ch = E.val(fr, states[k]['chan'])
+        got = take(E, ch)
+        vals = []
+        for j, st in enumerate(states):
+            if st['dir'] == 2: vals.append(got[0] if (j == k and got) else None)
+        fr.regs[i['name']] = tuple([k, got is not None] + vals)
+        return None
+    E.do_select = do_select
+    never = lambda e, a: ChanV(0)
+    I['time.After'] = never
+    I['time.Tick'] = never
 
     # fault injection: the flagged invoke returns (zero values..., error) without effect
     orig_step = E.step
